@@ -243,6 +243,14 @@ def _texpr(n, env):
         return ('(' + ' && '.join(e for e, _ in parts) + ')', 'bool')
     if isinstance(n, ast.Compare):
         op, rhs = n.ops[0], n.comparators[0]
+        if isinstance(op, (ast.Eq, ast.NotEq)) and isinstance(n.left, ast.Call) and isinstance(n.left.func, ast.Attribute) and n.left.func.attr == 'find' \
+                and len(n.left.args) == 1 and ast.unparse(rhs) == '-1':
+            # s.find(lit) != -1  /  == -1 : lit occurs (does not occur) in s
+            x, tx = _texpr(n.left.func.value, env)
+            ls = _lits(n.left.args[0])
+            need(tx == 'string' and ls is not None and len(ls) == 1, 'kernel: find with a non-literal argument')
+            r = '(match index 0 %s %s with Some _ => true | None => false end)' % (cstr(ls[0]), x)
+            return (r if isinstance(op, ast.NotEq) else '(negb %s)' % r, 'bool')
         if isinstance(op, (ast.Is, ast.IsNot)):
             a, ta = _texpr(n.left, env)
             need(ta == 'bool' and isinstance(rhs, ast.Constant) and isinstance(rhs.value, bool), 'kernel: `is` other than <bool> is True/False: %s' % key[:80])
@@ -281,6 +289,10 @@ def _texpr(n, env):
             (l, tl), (x, tx) = _texpr(f.value, env), _texpr(n.args[0], env)
             need(tl == 'list Z' and tx == 'Z', 'kernel: index on %s' % tl)
             return ('(src_zindex %s %s)' % (x, l), 'Z')
+        if isinstance(f, ast.Name) and f.id == 'bool' and len(n.args) == 1 and not n.keywords:
+            x, tx = _texpr(n.args[0], env)
+            need(tx == 'bool', 'kernel: bool() of a %s' % tx)
+            return (x, 'bool')
         if isinstance(f, ast.Name) and f.id == 'len' and len(n.args) == 1:
             x, tx = _texpr(n.args[0], env)
             need(tx in ('string', 'list string', 'list Z'), 'kernel: len of %s' % tx)
@@ -829,6 +841,23 @@ def main(out_path):
         w(kernel('src_hostkey_notes', [('host_key_type', 'string'), ('cert', 'bool'), ('hostkey_modulus_size', 'Z'), ('ca_key_type', 'string'), ('ca_modulus_size', 'Z')],
                  [blocks[0]], inputs=inputs, result=('key_fail_comments', 'key_warn_comments')))
     soft('host-key and CA size rating (HostKeyTest.perform_test)', ['C11'], ex_hostkey_notes)
+
+    def ex_gex_decisions():
+        # GEXTest.run(): the early break of the exact-size loop, the condition of the second pass against OpenSSH, and openssh_test_updated
+        brk = [n for n in ast.walk(loops[0]) if isinstance(n, ast.If) and len(n.body) == 1 and isinstance(n.body[0], ast.Break)]
+        need(len(brk) == 1 and loops[0].body[0] is brk[0], 'gextest: the exact-size loop starts with its early break')
+        w(kernel('src_gex_break', [('bits', 'Z'), ('smallest_modulus', 'Z')], [ast.Return(value=brk[0].test)]))
+        sp = [n for n in ast.walk(run) if isinstance(n, ast.If) and "find('OpenSSH')" in ast.unparse(n.test)]
+        need(len(sp) == 1 and isinstance(sp[0].test, ast.BoolOp) and isinstance(sp[0].test.op, ast.And) and len(sp[0].test.values) == 4
+             and ast.unparse(sp[0].test.values[1]) == 'banner is not None' and ast.unparse(sp[0].test.values[2]) == 'banner.software is not None', 'gextest: condition of the second pass')
+        cond = ast.BoolOp(op=ast.And(), values=[sp[0].test.values[0], ast.Name(id='has_software', ctx=ast.Load()), sp[0].test.values[3]])
+        w(kernel('src_gex_second_pass', [('smallest_modulus', 'Z'), ('has_software', 'bool'), ('software', 'string')], [ast.Return(value=cond)], inputs={'banner.software': ('software', 'string')}))
+        upd = [n for n in ast.walk(sp[0]) if isinstance(n, ast.Assign) and isinstance(n.targets[0], ast.Name) and n.targets[0].id == 'openssh_test_updated']
+        need(len(upd) == 1, 'gextest: openssh_test_updated inside the second pass')
+        w(kernel('src_gex_updated', [('smallest_modulus', 'Z')], [ast.Return(value=upd[0].value)]))
+        setsz = [n for n in ast.walk(run) if isinstance(n, ast.If) and ast.unparse(n.test) == 'smallest_modulus > 0' and any('set_dh_modulus_size' in ast.unparse(x) for x in n.body[:1])]
+        need(len(setsz) == 1, 'gextest: `if smallest_modulus > 0:` guarding set_dh_modulus_size and the rating')
+    soft('group-exchange probe decisions (GEXTest.run)', ['C12'], ex_gex_decisions)
 
     globals()['LAST_SOFT_FAILURES'] = soft_failures
 
